@@ -33,7 +33,8 @@ TIERS = {
 VAR_NAMES = ['$', '$1', '', 'a', '$a', 'b']
 FN_QUERIES = ['f', 'g', 'f_', 'h', 'nosuch']
 SENT = object()
-DEFAULT_NAMES = ['f', 'g', 'h', 'f', 'g']
+DEFAULT_NAMES = ['f', 'g', 'h', 'f', 'g', 'f']
+KINDS = {'f': 'F', 'g': 'F', 'h_': 'F', 'f2': 'F', 'm': 'FM', 'mm': 'M'}
 
 
 def norm(name):
@@ -138,7 +139,9 @@ def m_get_functions(n, name):
     return sorted(labels), excl
 
 
-def m_collect(n, name):
+def m_collect(n, name, kind=None):
+    """kind: None | 'F' (functions only) | 'M' (methods only) - the filter
+    runner.call applies; exclusivity does not depend on it."""
     name = name.rstrip('_')
     out = []
     for layer in layers(n):
@@ -151,7 +154,9 @@ def m_collect(n, name):
             if id(p) in seen:
                 continue
             seen.add(id(p))
-            labels.extend(e['label'] for e in p.cell.funcs.get(name, []))
+            labels.extend(e['label'] for e in p.cell.funcs.get(name, [])
+                          if kind is None or
+                          kind in KINDS[e['label'].split('/')[0]])
         if labels:
             out.append(sorted(labels))
         if excl:
@@ -207,7 +212,7 @@ def gen_case(seeds, params, index):
         elif r < 0.72:
             ops.append({'op': 'del', 'ctx': c, 'name': w.choice(VAR_NAMES)})
         elif r < 0.90:
-            ops.append({'op': 'reg', 'ctx': c, 'func': w.randrange(5),
+            ops.append({'op': 'reg', 'ctx': c, 'func': w.randrange(6),
                         'name': w.choice([None, None, 'f', 'g']),
                         'exclusive': w.random() < (0.4 if bias < 0.5 else 0.15),
                         'prebuilt': w.random() < 0.5})
@@ -235,11 +240,13 @@ def make_functions():
          'def h_(x):\n    return 2\n'
          'def f2(*a):\n    return 3\n'
          'def m(x):\n    return 4\n'
+         'def mm(x):\n    return 6\n'
          'def bad(x):\n    return 5\n', ns)
+    ns['mm'] = specs.method(specs.name('f')(ns['mm']))
     ns['f2'] = specs.name('f')(ns['f2'])
     ns['m'] = specs.extension_method(specs.name('g')(ns['m']))
     ns['bad'] = specs.method(specs.parameter('x', yaqltypes.Lambda())(ns['bad']))
-    return [ns['f'], ns['g'], ns['h_'], ns['f2'], ns['m']], ns['bad']
+    return [ns['f'], ns['g'], ns['h_'], ns['f2'], ns['m'], ns['mm']], ns['bad']
 
 
 def label(fd):
@@ -334,10 +341,19 @@ def execute(case, stats):
                         stats.inc('relaxation.partial_delete_adopted')
                         for p in own:
                             v = p.impl.get_data(op['name'], SENT, False)
+                            had = name in p.cell.data
                             if v is SENT:
+                                # removed from this member (or never there)
                                 p.cell.data.pop(name, None)
-                            else:
-                                p.cell.data[name] = v
+                            elif not had or (p.cell.data[name] is not v and
+                                             p.cell.data[name] != v):
+                                # a failed delete may leave the variable in
+                                # place or remove it; it never creates a
+                                # definition or changes a value
+                                fail('failed-delete-created-or-changed-a-'
+                                     'variable', {'name': op['name'],
+                                                  'member_had_it': had,
+                                                  'value_now': repr(v)}, step)
             elif k == 'reg':
                 n = nodes[op['ctx']]
                 fn = funcs[op['func']]
@@ -506,6 +522,16 @@ def compare_all(nodes, stats):
                     return ('collect_functions-differs-from-layers',
                             {'ctx': i, 'name': fname, 'expected': exp,
                              'got': got})
+                for kind, pred in (('F', lambda fd, ctx: fd.is_function),
+                                   ('M', lambda fd, ctx: fd.is_method)):
+                    exp = m_collect(n, fname, kind)
+                    got = [sorted(label(fd) for fd in layer)
+                           for layer in c.collect_functions(fname, pred)]
+                    nprobe += 1
+                    if got != exp:
+                        return ('collect_functions-with-kind-filter-differs',
+                                {'ctx': i, 'name': fname, 'kind': kind,
+                                 'expected': exp, 'got': got})
                 exp = m_get_functions(n, fname)
                 fs, ex = c.get_functions(fname)
                 got = (sorted(label(fd) for fd in fs), bool(ex))
